@@ -1,0 +1,5 @@
+//go:build !verif
+
+package memefish
+
+func verifHook(ev string, l *Lexer, noPanic bool, a, b, c int) {}
